@@ -5,7 +5,8 @@
    mode "validate"     : reads `case ||| impl_line` of harness/src/bin/c02_sock.rs (full stack), rebuilds the
                          writes from the case and the observed reads from the implementation's line and runs the
                          EXTRACTED validators validate_stream / validate_dgram on them
-   mode "validate-orig": the same without the read bound (code as it is) *)
+   mode "validate-strict": issue order required on every runtime flavour (for use once writes are handed over in order)
+   mode "validate-orig": like validate, without the read bound (code as it is) *)
 open Sockrecv_model
 
 let rec pos_of_int (n : int) : positive =
@@ -103,7 +104,15 @@ let run_script (fixed : bool) (line : string) : string =
 
 (* ------------------------------------------------------------------ full-stack validation *)
 (* the byte at stream position p of sender c (harness/src/bin/c02_sock.rs `pat`) *)
-let pat (c : int) (p : int) : int = (p * 7 + p / 251 * 13 + p / 63001 + c * 29 + 3) land 255
+let pat (c : int) (p : int) : int =
+  if p mod 65536 = 0 then c land 255
+  else begin
+    let x = (p * 2654435 + c * 1000003 + 12345) land 0x3FFFFFFF in
+    let x = x lxor (x lsr 13) in
+    let x = (x * 40503) land 0x3FFFFFFF in
+    let x = x lxor (x lsr 9) in
+    (x lsr 7) land 255
+  end
 
 (* payload encoding used by the harness: `P<c>.<start>+<len>` = pattern bytes, `X<hex>` = literal bytes,
    segments joined by `,`; `-` = empty *)
@@ -169,7 +178,7 @@ let field (toks : string list) (name : string) : string =
 let starts_with (s : string) (p : string) : bool =
   String.length s >= String.length p && String.sub s 0 (String.length p) = p
 
-let validate (fixed : bool) (line : string) : string =
+let validate (fixed : bool) (strict : bool) (line : string) : string =
   match Str.split (Str.regexp_string " ||| ") line with
   | [ case; impl ] -> (
       try
@@ -177,6 +186,11 @@ let validate (fixed : bool) (line : string) : string =
         let htoks = Conv.tokens head in
         let kind = List.hd htoks in
         let srv = sizes_of (field htoks "srv") in
+        (* f=0: current-thread runtime, spawned tasks run in spawn order: the FIFO hypothesis of C02_fifo_stream
+           holds and the prediction is the concatenation in issue order.  f>=1: multi-thread runtime, the hypothesis
+           is not available; the model then only guarantees a permutation of the writes (C02_unordered_is_permutation) *)
+        let ordered = strict || field htoks "f" = "0" in
+        let vstream = if ordered then validate_stream fixed else validate_stream_unordered fixed in
         let st, il = split2 impl '|' in
         let status = String.trim st in
         if starts_with status "CRASH" then "REJECT the simulation crashed"
@@ -199,9 +213,9 @@ let validate (fixed : bool) (line : string) : string =
                     let down_sender = 50 + (if sid = "-" then 0 else int_of_string sid) in
                     if kind = "tcp" then begin
                       let up = parse_stream_reads (field it "up") and down = parse_stream_reads (field it "down") in
-                      if not (validate_stream fixed (stream_writes id up_sizes) up) then
+                      if not (vstream (stream_writes id up_sizes) up) then
                         Printf.sprintf "REJECT stream client %d -> server" id
-                      else if not (validate_stream fixed (stream_writes down_sender srv) down) then
+                      else if not (vstream (stream_writes down_sender srv) down) then
                         Printf.sprintf "REJECT stream server -> client %d" id
                       else "ACCEPT"
                     end
@@ -228,7 +242,8 @@ let () =
   Conv.iter_lines (fun line ->
       print_endline
         (match mode with
-         | "validate" -> validate true line
-         | "validate-orig" -> validate false line
+         | "validate" -> validate true false line
+         | "validate-strict" -> validate true true line
+         | "validate-orig" -> validate false false line
          | "orig" -> run_script false line
          | _ -> run_script true line))
